@@ -371,7 +371,10 @@ func main() {
 	wr("searchTable", "inverted.go IndexInverted.Search: operator -> how the bucket is read (the range operators feed `RangeScan(start, end, inclusive)`)", searchTable(inv))
 	wr("processChangeArms", "inverted.go processChange: the arms in order", switchArms(method(inv, "IndexInverted", "processChange"), "processChange"))
 	wr("getOperationArms", "utils.go getOperation: the arms in order", switchArms(method(utl, "", "getOperation"), "getOperation"))
-	for _, w := range []struct{ name, recv, fn string; f *ast.File }{
+	for _, w := range []struct {
+		name, recv, fn string
+		f              *ast.File
+	}{
 		{"stringSearch", "IndexInvertedString", "Search", str},
 		{"stringWrite", "IndexInvertedString", "InsertUpdateDelete", str},
 		{"stringArraySearch", "IndexInvertedArrayString", "Search", str},
